@@ -7,6 +7,7 @@ import (
 	"io"
 
 	"github.com/jsightapi/jsight-schema-go-library/errors"
+	"github.com/jsightapi/jsight-schema-go-library/fs"
 	"github.com/jsightapi/jsight-schema-go-library/internal/lexeme"
 	"github.com/jsightapi/jsight-schema-go-library/zzverif/gen"
 	"github.com/jsightapi/jsight-schema-go-library/zzverif/v"
@@ -133,6 +134,134 @@ func ZZC05Holes() {
 	}
 }
 
+// ---- state-merged exploration (one step of the scanner from an abstract state)
+
+// zzKey is a canonical name of the scanner's control state: everything the
+// following transitions depend on (positions are left out).
+func zzKey(s *scanner) string {
+	k := v.FuncName(s.step) + "/"
+	for i := 0; i < s.returnToStep.Len(); i++ {
+		k += v.FuncName(s.returnToStep.Get(i)) + ","
+	}
+	k += "/"
+	for i := 0; i < s.stack.Len(); i++ {
+		k += string(rune('a' + int(s.stack.Get(i).Type())))
+	}
+	if s.unfinishedLiteral {
+		k += "/u"
+	}
+	return k
+}
+
+// zzDrive feeds the remaining bytes to the step function exactly as Next does,
+// without the end-of-input rule.
+func zzDrive(s *scanner) (ok bool, idx int) {
+	defer func() {
+		if r := recover(); r != nil {
+			de, isDE := r.(errors.DocumentError)
+			if !isDE {
+				panic(r)
+			}
+			ok, idx = false, int(de.Index())
+		}
+	}()
+	for s.index < s.dataSize {
+		c := s.data[s.index]
+		s.index++
+		s.step(s, c)
+		for len(s.finds) != 0 {
+			s.processingFoundLexeme(s.shiftFound())
+		}
+	}
+	return true, -1
+}
+
+// ZZC05Auto: the scanner and the reference automaton are brought to a reachable
+// state by a concrete witness prefix; the next byte is symbolic. The byte is
+// refused by the scanner iff the reference automaton dies on it (and the error
+// points at it); if the text ended here Check would accept iff the reference is
+// in a complete state (and an early end is reported at the last byte); the
+// successor state pair is reported for the breadth-first driver.
+func ZZC05Auto() {
+	prefix := v.ParamBytes("prefix")
+	trailing := v.Param("trailing", 0) != 0
+	maxDepth := v.Param("depth", 3)
+	c := v.Byte()
+	data := append(append([]byte{}, prefix...), c)
+	v.Observe("prefix", prefix)
+	v.Observe("byte", c)
+
+	var ref gen.JS
+	step := func(b byte) bool {
+		if ref.Mode == gen.JSDead {
+			return false
+		}
+		wasComplete := ref.Complete()
+		if ref.Step(b) {
+			return true
+		}
+		if trailing && wasComplete {
+			ref = gen.JS{Mode: gen.JSTrailing}
+			return true
+		}
+		ref = gen.JS{Mode: gen.JSDead}
+		return false
+	}
+	for _, b := range prefix {
+		step(b)
+	}
+	wasDead := ref.Mode == gen.JSDead
+	refOK := step(c)
+
+	s := newScanner(fs.NewFile("doc", data))
+	s.allowTrailingNonSpaceCharacters = trailing
+	implOK, idx := zzDrive(s)
+	late := false
+	switch {
+	case refOK:
+		v.Reach("C05/auto-byte-viable")
+		v.Assert(implOK, "C05/viable-prefix-rejected")
+	case !wasDead:
+		v.Reach("C05/auto-byte-dead")
+		if implOK {
+			// reported at the end so that the language-equality assertions still run from here
+			late = true
+		} else {
+			v.Assert(idx == len(prefix), "C17/json-parse-error-position")
+		}
+	}
+	if !implOK {
+		return
+	}
+	// the text ends here
+	var err error
+	if trailing {
+		err = New("doc", data, AllowTrailingNonSpaceCharacters()).Check()
+	} else {
+		err = New("doc", data).Check()
+	}
+	if ref.Complete() {
+		v.Reach("C05/auto-eof-complete")
+		v.Assert(err == nil, "C05/valid-json-rejected")
+	} else {
+		v.Reach("C05/auto-eof-early")
+		v.Assert(err != nil, "C05/invalid-json-accepted")
+		if err != nil && !ref.Blank() && ref.Mode != gen.JSDead {
+			de, isDE := err.(errors.DocumentError)
+			v.Assert(isDE, "C05/error-type")
+			if isDE {
+				v.Assert(int(de.Index()) == len(data)-1, "C17/json-early-end-position")
+			}
+		}
+	}
+	if ref.Depth() <= maxDepth && s.stack.Len() <= 2*maxDepth+4 {
+		v.Key(zzKey(s) + "|" + ref.Key())
+	}
+	if late {
+		v.Fail("C17/json-first-bad-byte-not-reported")
+	}
+}
+
 var _ = stdErrors.Is
 var _ = io.EOF
 var _ lexeme.LexEvent
@@ -141,4 +270,5 @@ var ZZHarnesses = map[string]func(){
 	"ZZC05Check":    ZZC05Check,
 	"ZZC05Trailing": ZZC05Trailing,
 	"ZZC05Holes":    ZZC05Holes,
+	"ZZC05Auto":     ZZC05Auto,
 }
